@@ -180,6 +180,29 @@ func registerIntrinsics(p *Program) {
 		ex.guards = append(ex.guards, g)
 		return nil
 	})
+	reg("verifGuardStruct", func(ex *Exec, a []Value) Value {
+		g := guardRec{mu: a[0].(Ptr)}
+		iv := a[1].(IfaceVal)
+		base := iv.V.(Ptr)
+		st, ok := deref(iv.T).Underlying().(*types.Struct)
+		if !ok {
+			ex.internal("verifGuardStruct needs a pointer to a struct")
+		}
+		for i := 0; i < st.NumFields(); i++ {
+			ft := st.Field(i).Type().Underlying()
+			_, isMap := ft.(*types.Map)
+			isInt := false
+			if b, ok := ft.(*types.Basic); ok && b.Kind() == types.Int {
+				isInt = true
+			}
+			if isMap || (isInt && st.Field(i).Name() != "bufMaxSize") {
+				np := append(append([]int{}, base.Path...), i)
+				g.fields = append(g.fields, Ptr{Obj: base.Obj, Path: np})
+			}
+		}
+		ex.guards = append(ex.guards, g)
+		return nil
+	})
 	reg("verifLockFree", func(ex *Exec, a []Value) Value {
 		return Bool(ex.mutexHeld(a[0].(Ptr)) == 0)
 	})
